@@ -1,3 +1,4 @@
+import Cactus.Lemmas.Final
 import Cactus.Lemmas.Complete
 import Cactus.Lemmas.Basic
 import Cactus.Lemmas.Orphan
@@ -75,5 +76,41 @@ they run before the drop returns.  The zero-count path is the known finding D5 a
 theorem C03_group_rule : type_of% @C03_group_collected := @C03_group_collected
 theorem C03_last_handle_with_adoptions : type_of% @C03_last_handle_links := @C03_last_handle_links
 theorem C03_no_stale_record_under_contract : type_of% @noStale_of_P := @noStale_of_P
+
+
+/-! ## The cascade rule, as a statement about operation boundaries
+
+"An object whose last strong handle disappears is destroyed immediately, and so, transitively, is
+every object all of whose strong handles were owned by objects destroyed in that same step":
+when an operation returns (the control stack is empty again) every object that is still live has
+at least one strong handle held by the program or stored in a value that is still in place.  So
+an object all of whose handles disappeared during the operation — dropped directly, or owned by
+values destroyed in that operation, at any depth of the cascade — is not live any more when the
+operation returns: its value has been moved out and its destructor has run (or is the husk of a
+`try_unwrap`/`make_mut`).  Collection is synchronous, never deferred.  No hypothesis on the history. -/
+
+theorem C03_no_live_object_without_a_handle {s : State} (h : Reachable s) (he : s.err = none)
+    (hq : s.stack = []) {t : Nat} (hl : s.isLive t = true) : 0 < s.ext t + s.inHeap t := by
+  have hC := (reachable_core h he).1.2.2.1 t hl
+  have hp : s.pend t = 0 := by simp [State.pend, hq, State.sumList]
+  have := State.strongNat_pos_of_isLive hl
+  omega
+
+/-- contrapositive form: an object with no handle left at an operation boundary is dead, its value
+is gone -/
+theorem C03_handleless_object_is_destroyed {s : State} (h : Reachable s) (he : s.err = none)
+    (hq : s.stack = []) {t : Nat} {ob : Obj} (hg : s.heap[t]? = some ob)
+    (h0 : s.ext t + s.inHeap t = 0) : ob.value = none := by
+  have hO := (reachable_core h he).1.1 t ob hg
+  cases hs : ob.strong with
+  | uninit => exact (hO.2.2.1 hs).1
+  | cnt n =>
+    cases n with
+    | zero => exact (hO.2.1 hs).1
+    | succ n =>
+      have hf := (hO.1 n hs).2.2.1
+      have hl : s.isLive t = true := (State.isLive_eq_true_iff s t).mpr ⟨ob, n, hg, hf, hs⟩
+      have := C03_no_live_object_without_a_handle h he hq hl
+      omega
 
 end Cactus
